@@ -124,7 +124,9 @@ TOKENS = ["a", "B", "é", "%41", "%c3%a9", "%C3%A9", " ", "%20", "+", "%2B", "/"
           "&", "%26", "=", "%3D", "@", "%40", ":", "%3A", "%25", "%2541", "%E9", "%00", "%0A", "%7F", "%C2%85",
           "%", "%4", "%zz", ".", "..", "%2e", "~", "%7e", "%C2%A0", "%E2%80%A8",
           # range boundaries and raw twins: last C0 control, raw no-break space, a literal '%' followed by a NON-ASCII digit and a hex letter
-          "%1F", "\xa0", "%\uff11a"]
+          "%1F", "\xa0", "%\uff11a",
+          # invisible but meaningful content (zero-width joiner): not a control character, not whitespace
+          "\u200d"]
 
 # tokens that would change the component structure when placed raw in a component are excluded per component
 EXCLUDE = {
